@@ -97,35 +97,37 @@ Section Statements.
     resolve_with true mr false (fst (request_pointer req url)) fetch = ([], ODeliver (resolved req url)).
   Proof. exact (transparent_request B sha parse ser encode decode parse_ser decode_encode). Qed.
 
-  (* one OutputCollector cycle (logs + one data batch + logs).  PARTIAL: cycles whose first EXCEPTION-level log
-     follows the data batch are excluded -- see refuted/R_C30.v *)
-  Theorem C30_transparent_cycle_partial : forall c url s cyc dsz mr fetch,
+  (* one OutputCollector cycle (logs + one data batch + logs), for both shapes of the source ([ser_all], regenerated):
+     PARTIAL for the code as found (ser_all = true: the external object holds the whole cycle): cycles whose first
+     EXCEPTION-level log follows the data batch are excluded -- see refuted/R_C30.v; unconditional when the batches
+     after the data batch stay inline behind the pointer (ser_all = false) *)
+  Theorem C30_transparent_cycle_partial : forall (ser_all : bool) c url s cyc dsz mr fetch,
     Forall (fun b => b_schema b = s /\ has_loc b = false) cyc ->
     (forall sz, dsz = Some sz -> exists d, datas cyc = [d]) ->
-    exc_after_data false cyc = false ->
-    (forall u, snd (ext_collector (sha_ser_of B sha ser) url c s cyc dsz) = Some u ->
+    (ser_all = true -> exc_after_data false cyc = false) ->
+    (forall u, snd (ext_collector ser_all (sha_ser_of B sha ser) url c s cyc dsz) = Some u ->
                forall k, fetch url k = fetch_obj B sha parse decode (Some (stored B ser encode u))) ->
-    equiv (drain (fun b => resolve_with true mr true b fetch) (fst (ext_collector (sha_ser_of B sha ser) url c s cyc dsz)))
+    equiv (drain (fun b => resolve_with true mr true b fetch) (fst (ext_collector ser_all (sha_ser_of B sha ser) url c s cyc dsz)))
           (drain (fun b => resolve_with true mr true b fetch) cyc).
   Proof. exact (transparent_cycle B sha parse ser encode decode parse_ser decode_encode). Qed.
 
   (* a whole stream: any number of cycles (cycle, data-batch size, upload URL), externalised or not cycle by cycle *)
-  Theorem C30_transparent_stream_partial : forall c s mr fetch (cycles : list (list batch * option N * bytes)),
+  Theorem C30_transparent_stream_partial : forall (ser_all : bool) c s mr fetch (cycles : list (list batch * option N * bytes)),
     Forall (fun x =>
               Forall (fun b => b_schema b = s /\ has_loc b = false) (fst (fst x)) /\
               (forall sz, snd (fst x) = Some sz -> exists d, datas (fst (fst x)) = [d]) /\
-              exc_after_data false (fst (fst x)) = false /\
-              (forall u, snd (ext_collector (sha_ser_of B sha ser) (snd x) c s (fst (fst x)) (snd (fst x))) = Some u ->
+              (ser_all = true -> exc_after_data false (fst (fst x)) = false) /\
+              (forall u, snd (ext_collector ser_all (sha_ser_of B sha ser) (snd x) c s (fst (fst x)) (snd (fst x))) = Some u ->
                          forall k, fetch (snd x) k = fetch_obj B sha parse decode (Some (stored B ser encode u)))) cycles ->
     equiv (drain (fun b => resolve_with true mr true b fetch)
-                 (flat_map (fun x => fst (ext_collector (sha_ser_of B sha ser) (snd x) c s (fst (fst x)) (snd (fst x)))) cycles))
+                 (flat_map (fun x => fst (ext_collector ser_all (sha_ser_of B sha ser) (snd x) c s (fst (fst x)) (snd (fst x)))) cycles))
           (drain (fun b => resolve_with true mr true b fetch) (flat_map (fun x => fst (fst x)) cycles)).
   Proof. exact (transparent_stream B sha parse ser encode decode parse_ser decode_encode). Qed.
 
   (* threshold "never" / no storage / zero-row batch: nothing is uploaded, the wire is the inline wire *)
-  Theorem C30_below_threshold_untouched : forall url c s cyc dsz size b,
+  Theorem C30_below_threshold_untouched : forall (ser_all : bool) url c s cyc dsz size b,
     (c_storage c = false \/ (forall sz, dsz = Some sz -> sz < c_thr c) ->
-       ext_collector (sha_ser_of B sha ser) url c s cyc dsz = (cyc, None)) /\
+       ext_collector ser_all (sha_ser_of B sha ser) url c s cyc dsz = (cyc, None)) /\
     (c_storage c = false \/ b_rows b = 0 \/ size < c_thr c ->
        ext_batch (sha_ser_of B sha ser) url c size b = (b, None)).
   Proof. exact (below_threshold_untouched B sha ser). Qed.
@@ -158,11 +160,11 @@ Definition xfetch (u : bytes) (k : nat) : fetched :=
 
 (* the cycle is really externalised (one pointer on the wire), meets the premises, and drains to the inline result *)
 Example C30_transparent_cycle_ex :
-  fst (ext_collector (sha_ser_of xB xsha xser) xurl xcfg 0 xcycle (Some 24)) =
+  fst (ext_collector true (sha_ser_of xB xsha xser) xurl xcfg 0 xcycle (Some 24)) =
     [pointer 0 xurl (Some (xsha (0, xcycle)))] /\
   Forall (fun b => b_schema b = 0 /\ has_loc b = false) xcycle /\ datas xcycle = [xdata] /\
   exc_after_data false xcycle = false /\
-  drain (fun b => resolve_with true 2 true b xfetch) (fst (ext_collector (sha_ser_of xB xsha xser) xurl xcfg 0 xcycle (Some 24))) =
+  drain (fun b => resolve_with true 2 true b xfetch) (fst (ext_collector true (sha_ser_of xB xsha xser) xurl xcfg 0 xcycle (Some 24))) =
     ([([73;78;70;79], [112]); ([87;65;82;78], [113])], [resolved xdata xurl], None) /\
   drain (fun b => resolve_with true 2 true b xfetch) xcycle =
     ([([73;78;70;79], [112]); ([87;65;82;78], [113])], [xdata], None).
